@@ -13,6 +13,8 @@
                       pagination builds are numbered 1..n, every page knows the total n, and exactly the first
                       page is flagged first and exactly the last page flagged last - the facts the placement
                       rule (C06_rule) and the page-break block (C06_order) are driven by.
+     C06_exact_pages  the two composed: "first" shows on page index 0 only, "last" on the final page only,
+                      "all" on every page the pagination builds.
    \header / \footer are emitted once by construction of Document.preamble (checked on the output by
    check_c06 clause 7).  Figure documents: placement by Document.figure_pages (same `placed` rule). *)
 From Coq Require Import Ascii String.
@@ -42,6 +44,21 @@ Theorem C06_pages : forall s pattrs rem cw pages,
             (forall i p, nth_error pages i = Some p -> pc_first p = Nat.eqb i 0 /\ pc_last p = Nat.eqb (S i) (length pages)).
 Proof. exact paginate_numbering. Qed.
 Print Assumptions C06_pages.
+
+(* C06_pages and the rule composed: on the pages the model's pagination builds, "first" shows on page index 0 and on no
+   other, "last" on the final page and on no other, "all" on every page *)
+Theorem C06_exact_pages : forall s pattrs rem cw pages i p,
+  paginate s pattrs rem cw = Ok pages -> f_rows (s_frame s) <> [] -> nth_error pages i = Some p ->
+  should_show (s2l "first") p = Nat.eqb i 0
+  /\ should_show (s2l "last") p = Nat.eqb (S i) (length pages)
+  /\ should_show (s2l "all") p = true.
+Proof.
+  intros s pattrs rem cw pages i p H Hne Hp.
+  destruct (paginate_numbering s pattrs rem cw pages H Hne) as [n [_ [_ [_ Hfl]]]].
+  destruct (Hfl i p Hp) as [Hf Hl]. rewrite <- Hf, <- Hl. unfold should_show.
+  repeat split; vm_compute (str_eqb _ _); reflexivity.
+Qed.
+Print Assumptions C06_exact_pages.
 
 Theorem C06_rule : forall loc p, valid_loc loc -> should_show loc p = placement loc (pc_first p) (pc_last p).
 Proof. exact should_show_placement. Qed.
